@@ -3,8 +3,13 @@
 //
 //   pull <maxDepth> <maxAttrs> <maxName> <maxText> <maxTokens> <hex doc>   token list + final state
 //   sax  <same options> <hex doc>                                          events seen by the 9 callbacks + result
+//   saxm <mask> <same options> <hex doc>                                   only the callbacks whose bit is set are registered
 //   dom  <same options> <hex doc>                                          DomBuilder tree dump / error
+//   dom0 <same options> <hex doc>                                          DomBuilder::build(parser, nullptr): no error sink
+//   domh <same options> <hex doc>                                          Node::getTextContent / getAttribute / childByName on every element
 //   dec  <hex>                                                             Parser::decodeEntities
+//   dec0 <hex>                                                             Parser::decodeEntities(in, out) with err == nullptr
+//   pullstat / domstat <same options> <hex doc>                            counts only (documents too large / deep to dump)
 //   utf8 <code point>                                                      Parser::encodeUtf8
 //   defaults                                                               Options{} as constructed by the header
 //
@@ -208,6 +213,38 @@ static void dumpNode(const x::Node& n, std::string& o)
   o += "]";
 }
 
+static std::string viewOrNull(std::string_view v) { return v.data() == nullptr ? std::string("~") : vh::toHex(std::string(v)); }
+
+// Node::getTextContent(), getAttribute(own attribute names), childByName(own element children) and two look-ups that must miss
+static void helperLine(const x::Node& n, std::vector<std::string>& out)
+{
+  std::string o = (n.type == x::NodeType::Document ? std::string("-") : hexOf(n.name)) + " t=" + hexOf(n.getTextContent()) + " a=";
+  for (std::size_t i = 0; i < n.attributes.size(); ++i)
+  {
+    if (i) o += ",";
+    o += viewOrNull(n.getAttribute(n.attributes[i].name));
+  }
+  o += " c=";
+  bool first = true;
+  for (const auto& c : n.children)
+  {
+    if (c->type != x::NodeType::Element) continue;
+    if (!first) o += ",";
+    first = false;
+    const x::Node* hit = n.childByName(c->name);
+    if (!hit) { o += "~"; continue; }
+    std::size_t idx = 0;
+    for (; idx < n.children.size(); ++idx)
+      if (n.children[idx].get() == hit) break;
+    o += std::to_string(idx);
+  }
+  const std::string miss(1, '\x01');
+  o += " m=" + viewOrNull(n.getAttribute(miss)) + (n.childByName(miss) ? "!" : "~");
+  out.push_back(o);
+  for (const auto& c : n.children)
+    if (c->type == x::NodeType::Element) helperLine(*c, out);
+}
+
 static std::string guarded(const std::function<std::string()>& f)
 {
   try { return f(); }
@@ -285,6 +322,110 @@ int main()
         if (const x::Error* e = p.error()) fin += " err " + Dump::err(*e);
         return join(evs) + " | " + fin;
       }
+      if (t.size() == 8 && t[0] == "saxm")
+      {
+        unsigned long long mask = 0;
+        std::vector<std::string> t2(t.begin() + 1, t.end());
+        if (!vh::parseNat(t[1], mask) || mask >= 512 || !parseOpts(t2, opt) || !vh::ofHex(t[7], d)) return "bad-op";
+        Doc doc(d);
+        Dump dump(doc);
+        x::Parser p(doc.view(), opt);
+        std::vector<std::string> evs;
+        x::SaxCallbacks cb;
+        auto rec = [&](const char* tag) {
+          return [&evs, &dump, tag](const x::Token& tk) {
+            std::string s = dump.token(tk);
+            std::string k = s.substr(0, s.find(' '));
+            evs.push_back(k == tag ? s : std::string("WRONG-CALLBACK(") + tag + ")" + s);
+          };
+        };
+        if (mask & 1) cb.onXmlDecl = rec("Xd");
+        if (mask & 2) cb.onDoctype = rec("Dt");
+        if (mask & 4) cb.onStartElement = rec("S");
+        if (mask & 8) cb.onEndElement = rec("E");
+        if (mask & 16) cb.onEmptyElement = rec("Em");
+        if (mask & 32) cb.onText = rec("T");
+        if (mask & 64) cb.onCData = rec("Cd");
+        if (mask & 128) cb.onComment = rec("Cm");
+        if (mask & 256) cb.onPI = rec("Pi");
+        bool ok = x::runSax(p, cb);
+        std::string fin = ok ? "ok" : "fail";
+        if (const x::Error* e = p.error()) fin += " err " + Dump::err(*e);
+        return join(evs) + " | " + fin;
+      }
+      if (t.size() == 7 && t[0] == "dom0" && parseOpts(t, opt) && vh::ofHex(t[6], d))
+      {
+        Doc doc(d);
+        x::Parser p(doc.view(), opt);
+        std::unique_ptr<x::Node> root = x::DomBuilder::build(p);      // errOut == nullptr
+        if (!root) return "null";
+        std::string o;
+        dumpNode(*root, o);
+        return o;
+      }
+      if (t.size() == 7 && t[0] == "domh" && parseOpts(t, opt) && vh::ofHex(t[6], d))
+      {
+        Doc doc(d);
+        x::Parser p(doc.view(), opt);
+        std::unique_ptr<x::Node> root = x::DomBuilder::build(p);
+        if (!root) return "null";
+        std::vector<std::string> lines;
+        helperLine(*root, lines);
+        return join(lines);
+      }
+      if (t.size() == 7 && t[0] == "pullstat" && parseOpts(t, opt) && vh::ofHex(t[6], d))
+      {
+        Doc doc(d);
+        x::Parser p(doc.view(), opt);
+        std::size_t n = 0, maxDepth = 0, maxAttrs = 0, maxName = 0, maxText = 0, guard = doc.n + 8;
+        bool inb = true;
+        auto inside = [&](std::string_view v) {
+          return v.data() == nullptr || (v.data() >= doc.p && v.data() + v.size() <= doc.p + doc.n);
+        };
+        while (p.next())
+        {
+          const x::Token& c = p.current();
+          ++n;
+          maxDepth = std::max(maxDepth, c.depth);
+          maxAttrs = std::max(maxAttrs, c.attributes.size());
+          maxName = std::max(maxName, c.name.size());
+          if (c.kind == x::TokenKind::Text) maxText = std::max(maxText, c.text.size());
+          inb = inb && inside(c.name) && inside(c.text);
+          for (const auto& a : c.attributes)
+          {
+            maxName = std::max(maxName, a.name.size());
+            maxText = std::max(maxText, a.value.size());
+            inb = inb && inside(a.name) && inside(a.value);
+          }
+          if (guard-- == 0) return "nonterminating";
+        }
+        std::string fin = p.error() ? "err " + Dump::err(*p.error()) : std::string("eof");
+        return "tokens=" + std::to_string(n) + " depth=" + std::to_string(maxDepth) + " attrs=" + std::to_string(maxAttrs) + " name=" +
+               std::to_string(maxName) + " text=" + std::to_string(maxText) + " inbounds=" + (inb ? "1" : "0") + " | " + fin +
+               " stack=" + std::to_string(p._elementStack.size());
+      }
+      if (t.size() == 7 && t[0] == "domstat" && parseOpts(t, opt) && vh::ofHex(t[6], d))
+      {
+        Doc doc(d);
+        x::Parser p(doc.view(), opt);
+        x::Error e{};
+        std::size_t nodes = 0, depth = 0;
+        {
+          std::unique_ptr<x::Node> root = x::DomBuilder::build(p, &e);
+          if (!root) return "null " + Dump::err(e);
+          std::vector<std::pair<const x::Node*, std::size_t>> st;      // iterative walk: the tree may be very deep
+          st.push_back({root.get(), 0});
+          while (!st.empty())
+          {
+            auto cur = st.back();
+            st.pop_back();
+            ++nodes;
+            depth = std::max(depth, cur.second);
+            for (const auto& c : cur.first->children) st.push_back({c.get(), cur.second + 1});
+          }
+        }   // the document is destroyed here
+        return "nodes=" + std::to_string(nodes) + " depth=" + std::to_string(depth) + " destroyed";
+      }
       if (t.size() == 7 && t[0] == "dom" && parseOpts(t, opt) && vh::ofHex(t[6], d))
       {
         Doc doc(d);
@@ -306,6 +447,13 @@ int main()
         bool ok = x::Parser::decodeEntities(doc.view(), out, &e);
         if (ok) return "ok " + vh::toHex(out);
         return std::string("err ") + errKind(e.message) + " " + std::to_string(e.offset);
+      }
+      if (t.size() == 2 && t[0] == "dec0" && vh::ofHex(t[1], d))
+      {
+        Doc doc(d);
+        std::string out = "previous-content";
+        bool ok = x::Parser::decodeEntities(doc.view(), out);        // err == nullptr
+        return ok ? "ok " + vh::toHex(out) : std::string("err");
       }
       unsigned long long cp = 0;
       if (t.size() == 2 && t[0] == "utf8" && vh::parseNat(t[1], cp) && cp <= 0xFFFFFFFFull)
